@@ -367,6 +367,7 @@ def judgeNodeCrash (cfg : Cfg) (topics ids : List String) (ops : List NOp) (unin
   let mut windowT : List (String × String) := []   -- (topic, id) told while its transaction had not committed
   let mut inflightIds : List String := []
   let mut classes : List String := []
+  let mut firstKJ : Option (Nat × Nat) := none    -- the (k, j) of the first crash, in terms of the whole history
   for (k, m, post) in cs do
     if present then
       let b := nrun cfg w (remaining.take k)
@@ -380,6 +381,7 @@ def judgeNodeCrash (cfg : Cfg) (topics ids : List String) (ops : List NOp) (unin
         let done := j == micros.length || (post && lastTx)
         if !done then allDone := false
         c := nrunMicros b (micros.take j)
+        if firstKJ.isNone then firstKJ := some (k, j)
         processed := processed ++ remaining.take k ++ (if done then (remaining[k]?).toList else [])
         let inflight := (remaining[k]?).bind NOp.id?
         let nCollectTx := collectTxBefore micros micros.length
@@ -442,11 +444,27 @@ def judgeNodeCrash (cfg : Cfg) (topics ids : List String) (ops : List NOp) (unin
   let told := toldBefore ++ evsOf tolda
   let badH := keys.filter fun (T, i) => lastTold told T i != lvOf final T i
   let mut acc := acc
+  match cs.length == 1 && cfg.anon.isSome && cfg.named.isSome, firstKJ with
+  | true, some (k, j) =>
+    -- the characterisation is EXACT: what it names must be observed misled (otherwise the tie is broken)
+    let missed := keys.filter fun (T, i) => nodeMisledChar cfg.sco cfg.noRec ops k j (cfg.anon == some T) i && !badH.contains (T, i)
+    if !missed.isEmpty then acc := acc.mismatch s!"{what}: characterised as misled but observed informed: {showKeys missed}"
+    if keys.any (fun (T, i) => nodeMisledChar cfg.sco cfg.noRec ops k j (cfg.anon == some T) i) then acc := acc.br "characterised-misled"
+    else if !allDone then acc := acc.br "inside-point-not-misled"
+  | _, _ => pure ()
   if !badH.isEmpty then
     if allDone then
       throw (.specfail "handlers-not-misled" s!"{what}: {showKeys badH} final {renderDump final} told {renderDump toldb} ++ {renderDump tolda}")
     else if badH.all (fun (T, i) => inflightIds.contains i && (split || windowT.contains (T, i)) &&
-        lastTold r.svc.told T i != r.svc.mem.level T i) then
+        (match cs.length == 1 && cfg.anon.isSome && cfg.named.isSome, firstKJ with
+          | true, some (k, j) =>
+            -- one process death, node with both topics: the deviation clause is the PROVED characterisation
+            -- (Props.C08.node_handlers_not_misled_except_characterised): a predicate on (history, k, j) and the
+            -- exact (last word, final level) it predicts — no model run
+            let isA := cfg.anon == some T
+            nodeMisledChar cfg.sco cfg.noRec ops k j isA i &&
+              (lastTold told T i, lvOf final T i) == nodeDeviation cfg.sco cfg.noRec ops k j isA
+          | _, _ => lastTold r.svc.told T i != r.svc.mem.level T i)) then
       if split then
         acc := { acc with known := acc.known <|> some ("two-topic-split", s!"{what}: event recorded on the anonymous topic only; {showKeys badH} end in a level their handlers were not told") }
       else
